@@ -2,7 +2,7 @@
 objects borrowed from the Network, no run-time process-global state."""
 import ast
 
-from .. import rules
+from .. import rules, scans
 from ..callgraph import callgraph
 from ..model import AnalysisError, call_name, loc, unparse, is_self_attr
 from ..rules import family_views
@@ -163,15 +163,39 @@ def isolation(ctx, P):
         mod = fn._module.name
         if mod in ("ciw.network", "ciw.import_params"):
             continue
+        # single-assignment locals, so that `cc = ...customer_classes[k]; cc.<field>` is seen as the same borrow
+        cnt, ldefs = {}, {}
+        for y in ast.walk(fn):
+            if isinstance(y, ast.Assign) and len(y.targets) == 1 and isinstance(y.targets[0], ast.Name):
+                cnt[y.targets[0].id] = cnt.get(y.targets[0].id, 0) + 1
+                ldefs[y.targets[0].id] = unparse(y.value)
+            elif isinstance(y, (ast.For, ast.comprehension)) and isinstance(y.target, ast.Name):
+                cnt[y.target.id] = cnt.get(y.target.id, 0) + 1
+                ldefs[y.target.id] = "(element of %s)" % unparse(y.iter)
+        ldefs = {k: v for k, v in ldefs.items() if cnt[k] == 1}
+        sites_ = []
         for x in ast.walk(fn):
-            if not (isinstance(x, ast.Attribute) and x.attr in NETWORK_FIELDS and isinstance(x.ctx, ast.Load)):
-                continue
-            base = unparse(x.value)
+            if isinstance(x, ast.Attribute) and x.attr in NETWORK_FIELDS and isinstance(x.ctx, ast.Load):
+                sites_.append((x, x.value, x.attr))
+            elif isinstance(x, ast.Call) and isinstance(x.func, ast.Name) and x.func.id == "getattr" and len(x.args) >= 2:
+                # getattr(obj, name): the name is a literal, or a parameter of a helper whose call sites pass literals
+                if isinstance(x.args[1], ast.Constant) and x.args[1].value in NETWORK_FIELDS:
+                    sites_.append((x, x.args[0], x.args[1].value))
+                elif isinstance(x.args[1], ast.Name) and x.args[1].id in [a_.arg for a_ in fn.args.args]:
+                    pos = [a_.arg for a_ in fn.args.args].index(x.args[1].id) - (1 if ci is not None else 0)
+                    for c2, f2, call in rules.calls_named(P, fn.name):
+                        val = call.args[pos] if pos < len(call.args) else next((k.value for k in call.keywords if k.arg == x.args[1].id), None)
+                        if isinstance(val, ast.Constant) and val.value in NETWORK_FIELDS:
+                            sites_.append((x, x.args[0], val.value))
+                        elif not isinstance(val, ast.Constant):
+                            ctx.unrecognised("ISO: getattr(%s, %s) in %s with a non-literal name at %s" % (unparse(x.args[0])[:40], x.args[1].id, P.func_name(fn), P.func_name(f2)))
+        for x, basenode, attr in sites_:
+            base = scans._subst(unparse(basenode), ldefs)
             if "network" not in base and not base.startswith("node") and "service_centres" not in base and "customer_classes" not in base:
                 continue
-            if x.attr == "routing" and "customer_classes" not in base:
+            if attr == "routing" and "customer_classes" not in base:
                 continue
-            field = x.attr
+            field = attr
             st = fam_state[field]
             if not st:
                 continue
@@ -222,11 +246,13 @@ def orders(ctx, P):
     for ci, fn in P.all_functions():
         for lp in [x for x in ast.walk(fn) if isinstance(x, ast.For)]:
             it = lp.iter
-            if not (isinstance(it, ast.Call) and isinstance(it.func, ast.Attribute) and it.func.attr in ("items", "keys", "values")):
+            dict_iter = getattr(lp, "_dict_iter", None)
+            if not dict_iter and not (isinstance(it, ast.Call) and isinstance(it.func, ast.Attribute) and it.func.attr in ("items", "keys", "values")):
                 continue
             if not any(isinstance(y, ast.Call) and call_name(y) in ("sample", "_sample", "random_choice", "random") for y in ast.walk(lp)):
                 continue
-            field = it.func.value.attr if isinstance(it.func.value, ast.Attribute) else unparse(it.func.value)
+            coll = it if dict_iter else it.func.value
+            field = coll.attr if isinstance(coll, ast.Attribute) else unparse(coll)
             ob.ok("%s:loop-over-%s" % (P.func_name(fn), field), "%s samples while iterating %s" % (P.func_name(fn), unparse(it)[:70]))
             # construction site(s) of a dict of that name in import_params: comprehension / loops over params['customer_class_names']
             built = []
